@@ -274,6 +274,63 @@ def gen_systematic(ctx, pools_module, timeout=900):
     return behs
 
 
+def reads_marks(ext):
+    return any(st["op"] == "select" for st in ext) or "$" in json.dumps(ext)
+
+
+def select_systematic(ctx, behs, pools, states, src, quick):
+    """The enumeration holds every (job, continuation) of every pool, on every graph, directly (sfr), after a
+    restart (sfXr) and after another resume (sfrr).  Thorough: all single resumes and a large sample of the
+    double ones.  Quick: one graph per distinct (job statements, extension statements) - preferring a graph on
+    which the concatenated traversal returns rows -, a sample of the restarts and of the double resumes (first
+    those whose first extension sets a mark again and whose second reads marks)."""
+    rng = ctx.rng
+    single, restart, double = {}, {}, {}
+    for b in behs:
+        pool, h = pools[b["pool"] - 1], b["hist"]
+        job = pool[h[0]["p"] - 1]
+        shape = [e["op"] for e in h]
+        scaled = src[b["pool"] - 1] == "scaled"
+        gk = job.g if scaled else 0                       # on the star graphs the size is the point
+        if shape[2:] == ["resume"] or shape[2:] == ["restart", "resume"]:
+            ent = pool[h[-1]["p"] - 1]
+            k = json.dumps([gk, job.prog, ent.prog[len(job.prog):]], sort_keys=True)
+            nonempty = ent.sid < 0 or bool(states[ent.sid]["rows"])
+            (single if len(shape) == 3 else restart).setdefault((src[b["pool"] - 1], k), []).append((nonempty, b))
+        else:
+            e1 = pool[h[2]["p"] - 1].prog[len(job.prog):]
+            e2 = pool[h[3]["p"] - 1].prog[len(job.prog):]
+            marked = {st["name"] for st in job.prog if st["op"] == "as"}
+            again = any(st["op"] == "as" and st["name"] in marked for st in e1)
+            pr = 2 if (again and reads_marks(e2)) else 1 if (any(st["op"] == "as" for st in e1) and reads_marks(e2)) else 0
+            k = json.dumps([gk, job.prog, e1, e2], sort_keys=True)
+            double.setdefault((pr, k), []).append((True, b))
+
+    def one(cands):
+        good = [b for ok, b in cands if ok] or [b for ok, b in cands]
+        return rng.choice(good)
+
+    def sample(d, n, pred=lambda key: True):
+        keys = sorted(k for k in d if pred(k))
+        rng.shuffle(keys)
+        return [one(d[k]) for k in keys[:n]]
+    if not quick:
+        out = [b for d in (single, restart) for k in sorted(d) for ok, b in d[k]]
+        pri = sorted(double, key=lambda k: -k[0])
+        top = [k for k in pri if k[0] == 2]
+        rest = [k for k in pri if k[0] < 2]
+        rng.shuffle(rest)
+        out += [one(double[k]) for k in top + rest[:max(0, 5000 - len(top))]]
+        return out
+    out = sample(single, 420, lambda k: k[0] == "curated") + sample(single, 120, lambda k: k[0] == "narrow2") \
+        + sample(single, 110, lambda k: k[0] == "scaled") + sample(restart, 110)
+    top = sorted(k for k in double if k[0] == 2)
+    rng.shuffle(top)
+    out += [one(double[k]) for k in top[:110]]
+    out += sample(double, 50, lambda k: k[0] < 2)
+    return out
+
+
 def as_list(x):
     return x if isinstance(x, list) else []
 
@@ -742,25 +799,12 @@ def run(ctx):
     ctx.log("curated+scaled: star sizes %s, %d traversal states, %d pools" % (sizes, len(sts), ncur))
     camp = Campaign("jobs", graphs, states, pools, pb)
     # (c) behaviours generated by TLC from Jobs.tla over those pools
-    cap = 260 if quick else 2400
+    cap = 240 if quick else 2000
     behs, _ = gen_behaviours(ctx, pb.module(pools), num=1, depth=max(800, int(cap * 4.5)), timeout=1200, label="behaviours")
     chosen = pick_behaviours(ctx, behs, cap)
-    sysb = gen_systematic(ctx, pb.module(pools))
-    nsys = len(sysb)
-    scap = 560 if quick else 12000
-    if len(sysb) > scap:
-        by_pool = {}
-        for b in sysb:
-            by_pool.setdefault(b["pool"], []).append(b)
-        sysb = []
-        for k in sorted(by_pool):
-            ctx.rng.shuffle(by_pool[k])
-        while len(sysb) < scap and by_pool:
-            for k in sorted(by_pool):
-                sysb.append(by_pool[k].pop())
-                if len(sysb) >= scap:
-                    break
-            by_pool = {k: v for k, v in by_pool.items() if v}
+    allsys = gen_systematic(ctx, pb.module(pools))
+    nsys = len(allsys)
+    sysb = select_systematic(ctx, allsys, pools, states, src, quick)
     ctx.log("%d random behaviours generated, %d kept; %d systematic resume behaviours, %d kept; replayed on %s" % (
         len(behs), len(chosen), nsys, len(sysb), "alternating bindings" if quick else "both bindings"))
     nrandom = len(chosen)
@@ -791,7 +835,7 @@ def run(ctx):
                         "compared with the specified answer; non-trivial = distinct (traversal, split point) resumes + result types stored"
                         % HIST_LEN)
     ctx.assumptions += [
-        "the server is restarted only when no job is running, and 25 ms after the last job was seen COMPLETE (the property speaks about completed jobs)",
+        "the server is restarted only when no job is running (the property speaks about completed jobs); a job counts as completed as soon as a status call has answered COMPLETE",
         "deleting a running job (cancellation), submitting an ill-typed traversal, resuming with no extra statement and statements outside Traversal.tla's alphabet (mark/jump, set/increment) are outside the generated space",
         "aggregations are not described by Traversal.tla: a job ending in aggregate(), and a resume with aggregate(), are compared with the direct run of the same traversal (same multiset); percentile aggregations are left out (approximate)",
         "after a truncating step (limit/skip/range/distinct) the job and the direct run may legitimately keep different rows: those results are tested for membership in the admissible results only",
